@@ -82,7 +82,7 @@ CONTENT_VARIANTS = {
                                       'utf-16'}, REJECT),
         ('codec-unknown', {'encoding': 'nope-8'}, REJECT),
         ('indent-neg', {'indent': -1}, MAY),
-        ('indent-none', {'indent': None}, ACCEPT),
+        ('indent-none', {'indent': None}, MAY),
         ('indent-str', {'indent': '4'}, MAY),
         ('indent-float', {'indent': 1.5}, MAY),
         ('codec-int', {'encoding': 5}, MAY),
@@ -324,8 +324,8 @@ class Model(object):
             if 'indent' in op:
                 ind = pyval(op['indent'])
 
-                if ind is not None and (not isinstance(ind, int) or
-                                        isinstance(ind, bool) or ind < 0):
+                if not isinstance(ind, int) or isinstance(ind, bool) or \
+                   ind < 0:
                     cls = MAY
 
             payload = text
